@@ -40,9 +40,12 @@ Definition str_class (body : list Z) : Z :=
   else if olz_eqb (sv (sv_gen false false true) body) sp then 5
   else 3.
 
-(* finding classes: 1 = relational operators associate to the right
-   2 = hex / legacy-octal literal >= 2^63   3 = \uD800-\uDFFF escapes become U+FFFD
-   4 = octal escape above \377   5 = backslash + LS/PS is not a line continuation *)
+(* finding classes (open): 1 = relational operators associate to the right
+   2 = hex / legacy-octal literal >= 2^63   3 = \\uD800-\\uDFFF escapes become U+FFFD
+   4 = octal escape above \\377   5 = backslash + LS/PS is not a line continuation
+   11-14 = pinned witnesses (comment with line terminator, numeric property name,
+   no-in relational operand, detached regexp flags).  Classes 6-10 were repaired in
+   /repo; their witnesses are now CProg regression cases that accept only the ES5 tree. *)
 Definition verdict (c : case) : Z * Z :=
   match c with
   | CExpr toks gen obs =>
